@@ -83,8 +83,14 @@ fn strip_temp_ids(line: &str) -> String {
         if cs[i] == '!' && i + 2 < cs.len() && (cs[i + 1] == 'A' || cs[i + 1] == 'D') && cs[i + 2].is_ascii_digit() && i > 0 && (cs[i - 1] == '[' || cs[i - 1] == '"') {
             let mut j = i + 2;
             while j < cs.len() && cs[j].is_ascii_digit() { j += 1; }
-            out.push('~');
-            i = j;
+            // only a whole identifier of that form is a temporary id ("!A0x" is an ordinary public id)
+            if j >= cs.len() || matches!(cs[j], ']' | ':' | '"') {
+                out.push('~');
+                i = j;
+            } else {
+                out.push(cs[i]);
+                i += 1;
+            }
         } else {
             out.push(cs[i]);
             i += 1;
